@@ -50,11 +50,11 @@ Module ProdSim.
 
   Ltac finish_R I' :=
     first
-      [ exfalso; lia
+      [ exfalso; lia2
       | constructor; [exact I' | ..]; red_goal; proj_red;
         try (match goal with Hc : x_inflight (sh ?st) = _ |- _ => rew_goal st end);
         rw_consts;
-        cbn [sM sLate sI sR sE sS s0 aI aRd aLate aDn b2n]; try lia; bool_goal1; try lia ].
+        cbn [sM sLate sI sR sE sS s0 aI aRd aLate aDn b2n]; try lia2; bool_goal1; try lia2 ].
 
   Ltac sim_prep :=
     match goal with HR : R ?c ?s ?q, H : step ?c ?s ?a = Some ?s' |- _ =>
@@ -92,7 +92,7 @@ Module ProdSim.
         | H : ?l = false |- _ => progress (rewrite H in * )
         end;
         cbn in *;
-        first [ exfalso; cbn in *; lia
+        first [ exfalso; cbn in *; lia2
               | eexists; split; [reflexivity|]; finish_R I' ]
       end
     end.
